@@ -8,7 +8,7 @@ from fractions import Fraction
 
 from vf import impl
 from vf.model.numeric import exact_domain, is_multiple
-from vf.obs.monitor import LineCoverage, region_lines
+from vf.obs.monitor import region_lines, shared_coverage
 
 ID = "C09"
 LEVEL = "exploration"
@@ -190,8 +190,7 @@ def check_pair(ctx, draft, i, b, validators):
 
 def run(ctx):
     impl.quiet()
-    cov = LineCoverage()
-    cov.start()
+    cov = shared_coverage()
     validators = {}
     try:
         P = pool()
@@ -235,7 +234,7 @@ def run(ctx):
         ctx.sample({"draft": 7, "schema": {"multipleOf": 0.5}, "instance": 10 ** 400})
         ctx.sample({"draft": 4, "schema": {"minimum": float(2 ** 53), "exclusiveMinimum": True}, "instance": 2 ** 53 + 1})
     finally:
-        cov.stop()
+        pass
     regions = region_lines("_validators.py", "multipleOf")
     hit = {l for (base, qual, l) in cov.hit if base == "_validators.py" and qual == "multipleOf"}
     exc_hit = sum(1 for k, lines in regions.items() if k.startswith("except") and lines & hit)
